@@ -107,22 +107,26 @@ structure WB where
   changed : Bool
   failed : Bool
 
+/-- tighten-only intersection of the stored domain `cur` with the (un-shifted) result `o - off` -/
+def wbNew (cur o : Dom) (off : Int) : Dom :=
+  (if cur.1 < o.1 - off then o.1 - off else cur.1, if cur.2 > o.2 - off then o.2 - off else cur.2)
+def wbChanged (cur o : Dom) (off : Int) : Bool := decide (cur.1 < o.1 - off) || decide (cur.2 > o.2 - off)
+/-- the events of that change: MIN / MAX for the bound that moved, GROUND if now a single value -/
+def wbEv (cur o : Dom) (off : Int) : Ev :=
+  ⟨decide (cur.1 < o.1 - off), decide (cur.2 > o.2 - off), (wbNew cur o off).1 == (wbNew cur o off).2⟩
+
 /-- the write-back loop over the positions of the executed constraint -/
 def writeBack (P : Problem) (ne : List Bool) : List (Nat × Int) → Box → WB → WB
   | (idx, off) :: vs, o :: os, w =>
     if w.failed then w else
-    let old := getDom w.doms idx
-    let nmin := o.1 - off
-    let nmax := o.2 - off
-    let evMin := decide (old.1 < nmin)
-    let evMax := decide (old.2 > nmax)
-    let new : Dom := (if evMin then nmin else old.1, if evMax then nmax else old.2)
-    if evMin || evMax then
-      if new.1 > new.2 then { w with doms := w.doms.set idx new, failed := true }
+    let cur := getDom w.doms idx
+    if wbChanged cur o off then
+      if (wbNew cur o off).1 > (wbNew cur o off).2 then
+        { w with doms := w.doms.set idx (wbNew cur o off), failed := true }
       else
-        let ev : Ev := ⟨evMin, evMax, new.1 == new.2⟩
         writeBack P ne vs os
-          { doms := w.doms.set idx new, trig := addProps P w.trig ne idx ev, changed := true, failed := false }
+          { doms := w.doms.set idx (wbNew cur o off), trig := addProps P w.trig ne idx (wbEv cur o off),
+            changed := true, failed := false }
     else writeBack P ne vs os w
   | _, _, w => w
 
@@ -137,31 +141,46 @@ def BcStatus.code : BcStatus → Nat
 inductive EngErr | oob | fuel | stackOverflow | noDecision
 deriving DecidableEq, Repr, Inhabited
 
-/-- the `while True` loop of bound_consistency_algorithm (after `statistics[BC] += 1`) -/
-def bcLoop (P : Problem) : Nat → Option Nat → State → Except EngErr (BcStatus × State)
+/-- a scheduler: which queued constraint runs next, given the queue and the one just executed -/
+abbrev Picker := List Bool → Option Nat → Option Nat
+
+/-- the state after constraint `pi` has been popped and has FAILED -/
+def failRun (s : State) (pi : Nat) : State :=
+  { s with trig := s.trig.set pi false,
+           stats := { s.stats with filter := s.stats.filter + 1, inconsistency := s.stats.inconsistency + 1 } }
+
+/-- the state after constraint `pi` has been popped and answered `(st, out)` with `st ≠ inc`:
+    entailment flag, write-back, statistics.  The Boolean is "the write-back found an empty
+    intersection" (the pass then reports inconsistency). -/
+def afterRun (P : Problem) (s : State) (pi : Nat) (st : Status) (out : Box) : Bool × State :=
+  let p := P.props.getD pi default
+  let ne := if st == .ent then s.top.ne.set pi false else s.top.ne
+  let w := writeBack P ne p.vars out { doms := s.top.doms, trig := s.trig.set pi false, changed := false, failed := false }
+  let stats : Stats :=
+    { s.stats with filter := s.stats.filter + 1,
+                   entailment := s.stats.entailment + (if st == .ent then 1 else 0),
+                   inconsistency := s.stats.inconsistency + (if w.failed then 1 else 0),
+                   filterNoChange := s.stats.filterNoChange + (if !w.failed && !w.changed then 1 else 0) }
+  (w.failed, { s with top := { s.top with doms := w.doms, ne := ne }, trig := w.trig, stats := stats })
+
+/-- the `while True` loop of bound_consistency_algorithm (after `statistics[BC] += 1`), for an
+    arbitrary scheduler `pick`; the shipped one is `pickProp` -/
+def bcLoopG (pick : Picker) (P : Problem) : Nat → Option Nat → State → Except EngErr (BcStatus × State)
   | 0, _, _ => .error .fuel
   | fuel + 1, prev, s =>
-    match pickProp s.trig prev with
+    match pick s.trig prev with
     | none => .ok (if s.top.doms.isGround then .bound else .unbound, s)
     | some pi =>
       let p := P.props.getD pi default
-      let trig := s.trig.set pi false
-      let stats := { s.stats with filter := s.stats.filter + 1 }
       match runAlg p.alg p.params (views s.top.doms p.vars) with
       | .error .oob => .error .oob
       | .error .fuel => .error .fuel
-      | .ok (.inc, _) =>
-        .ok (.inconsistent, { s with trig := trig, stats := { stats with inconsistency := stats.inconsistency + 1 } })
+      | .ok (.inc, _) => .ok (.inconsistent, failRun s pi)
       | .ok (st, out) =>
-        let ne := if st == .ent then s.top.ne.set pi false else s.top.ne
-        let stats := if st == .ent then { stats with entailment := stats.entailment + 1 } else stats
-        let w := writeBack P ne p.vars out { doms := s.top.doms, trig := trig, changed := false, failed := false }
-        if w.failed then
-          .ok (.inconsistent, { s with top := { s.top with doms := w.doms, ne := ne }, trig := w.trig,
-                                       stats := { stats with inconsistency := stats.inconsistency + 1 } })
-        else
-          let stats := if w.changed then stats else { stats with filterNoChange := stats.filterNoChange + 1 }
-          bcLoop P fuel (some pi) { s with top := { s.top with doms := w.doms, ne := ne }, trig := w.trig, stats := stats }
+        let r := afterRun P s pi st out
+        if r.1 then .ok (.inconsistent, r.2) else bcLoopG pick P fuel (some pi) r.2
+
+def bcLoop (P : Problem) : Nat → Option Nat → State → Except EngErr (BcStatus × State) := bcLoopG pickProp P
 
 /-- a bound on the number of constraint executions of one pass that the model grants itself;
     `C04` proves a much smaller number suffices -/
